@@ -80,6 +80,10 @@ def _restart(ctx, fs, pool, op, k):
     re, rem = restart.restart_lmpdat(ctx, fs, r, m, name, style=op.get("style", "full"), via_save=via_s, via_load=via_l, prefix="c09")
     if re is None:
         return set()
+    if op.get("keep"):
+        # the object that was written stays in use (and may be written again after further operations)
+        ctx.count("writes_keeping_the_object")
+        return set()
     pool.real[o], pool.model[o] = re, rem
     return {o}
 
